@@ -200,8 +200,8 @@ def writeDatabaseC (cd : Codec) (g : Bool) : Nat → CSuite → CSuite × Option
 
 /-- `TestSuite.process` with a scripted processor on real files -/
 def processC (cd : Codec) (sch : Schema) (now : Nat) (s : CSuite) (b : Int) (g : Bool) (script : List Resp)
-    (sel : Option (String × String) := none) : (CSuite × Nat) × Option Err :=
-  match processInput sch (absSuite (clearAtC s (affectedIdx sch))) sel with
+    (sel : Option (String × String) := none) (src : Option Suite := none) : (CSuite × Nat) × Option Err :=
+  match inputOf sch (absSuite s) src sel with
   | .error e => ((s, now), some e)
   | .ok (inFields, items) =>
     let (gs, perr) := producedGroups sch inFields script items
